@@ -137,6 +137,36 @@ def history(rng, p, nb, sizes=None):
     return out
 
 
+def grazing(rng):
+    """histories in which one batch's epsilon lies a few parts per million above (or below) the adaptive bound: with statistic="stdev" the bound
+    is mean + significance * deviation of the epoch's earlier epsilons, so a significance is solved for that puts the bound next to the epsilon
+    of the epoch's first thresholded batch (two probing runs give the line).  "Exceeds" means exceeds - by any margin."""
+    cls = rng.choice(["HDDDM", "CDBD"])
+    p = {"cls": cls, "db": 3, "stat": "stdev", "sig": 1.0, "div": rng.choice(["H", "JS"]), "F": 1 if cls == "CDBD" else rng.choice([1, 2]), "subsets": 3}
+    F = p["F"]
+    loc, spread = [rng.randint(-5, 5) for _ in range(F)], rng.randint(6, 14)
+    script = [("set_reference", batch(rng, F, loc, spread, n=rng.choice([30, 49, 60])))]
+    for b in range(7):
+        loc = [x + rng.choice([0, 0, 1, -1]) for x in loc]
+        script.append(("update", batch(rng, F, loc, spread, n=rng.choice([25, 30, 45]))))
+    seed, frame = rng.randrange(10 ** 6), rng.random() < 0.5
+    t1, t2 = run(p, script, seed, frame), run(dict(p, sig=2.0), script, seed, frame)
+    k = next((i for i, e in enumerate(t1["ev"]) if e["beta"] != "None"), None)
+    if k is None or t2["ev"][k]["beta"] == "None":
+        return None
+    b1, b2, eps = float(t1["ev"][k]["beta"]), float(t2["ev"][k]["beta"]), float(t1["ev"][k]["eps"])
+    slope = b2 - b1
+    if not slope > 1e-6:
+        return None
+    side = rng.choice([1 + 5e-6, 1 + 2e-6, 1 - 5e-6])
+    sig = (eps / side - (b1 - slope)) / slope
+    if not sig > 1e-3:
+        return None
+    t = run(dict(p, sig=sig), script, seed, frame)
+    t["graze"] = side
+    return t
+
+
 def sabotage(trace, rng):
     ks = [k for k, e in enumerate(trace["ev"]) if e["op"] == "update"]
     k = rng.choice(ks)
